@@ -44,6 +44,7 @@ type corpusLine struct {
 	Sp   *SpCase  `json:"sp,omitempty"`
 	Sc   *ScCase  `json:"sc,omitempty"`
 	Hist *HistCase `json:"hist,omitempty"`
+	Tmp  *TmpCase `json:"tmp,omitempty"`
 }
 
 func readCorpus(path string) []corpusLine {
@@ -275,6 +276,42 @@ func corr(o Opts) {
 	if err := cw.Flush(); err != nil {
 		Die("%v", err)
 	}
+	// buffers tmp1 / tmp2 of the Real matrices through Slice / T / Tip / Clone histories
+	tw := NewCaseWriter(o.Out, "tmp", hdrTmp, "tmism", 400)
+	tw.Type = "tcase"
+	tw.Rule = "buffer stream: NullDenseReal64Matrix / NullDenseReal32Matrix (0..4 x 0..4, mostly non-square), then 1..5 of Slice (valid ranges, empty included) / T / Tip (unsliced or transposed matrices) / CloneMatrix; after every step rows, cols and whether tmp1 holds rows / tmp2 holds cols (cap) compared; non-trivial iff Tip runs on a non-square matrix; distinct = (type, shape, operations)"
+	tr := NewRng(o.Seed + 7070)
+	nt := 300
+	if full {
+		nt = 3000
+	}
+	var tcs []*TmpCase
+	for _, c := range readCorpus(o.Extra) {
+		if c.Tmp != nil {
+			m := *c.Tmp
+			tcs = append(tcs, &m)
+		}
+	}
+	for k := 0; k < nt; k++ {
+		tcs = append(tcs, genTmp(tr.Split()))
+	}
+	for _, c := range tcs {
+		c.exec()
+		if c.Lost != "" {
+			Die("tie lost: %s", c.Lost)
+		}
+		tw.Add(c.Coq(), corpusLine{Tmp: c}, c.key(), c.hasTipOnNonSquare())
+		tw.Count("type:" + c.Kind)
+		for _, op := range c.Ops {
+			tw.Count("op:" + op.Op)
+		}
+		if c.hasTipOnNonSquare() {
+			tw.Count("Tip-on-non-square")
+		}
+	}
+	if err := tw.Flush(); err != nil {
+		Die("%v", err)
+	}
 }
 
 // ---------------------------------------------------------------- hunt
@@ -433,6 +470,7 @@ func hunt(o Opts) {
 		}
 	}
 	jetHunt(o.Seed, o.N, &out, add)
+	vpHunt(o.Seed, &out, add)
 	scHunt(o.Seed, o.N, &out, add)
 	histHunt(o.Seed, o.N, &out, add)
 	out.Found = len(out.Hits) > 0
@@ -555,6 +593,14 @@ func replay(o Opts) {
 			w.Add(m.Coq(), rp.Case, "replay", true)
 			w.Flush()
 		}
+		if rp.Case.Tmp != nil {
+			m := *rp.Case.Tmp
+			m.exec()
+			w := NewCaseWriter(o.Out, "replay", hdrTmp, "tmism", 1000)
+			w.Type = "tcase"
+			w.Add(m.Coq(), rp.Case, "replay", true)
+			w.Flush()
+		}
 		if rp.Case.Sp != nil {
 			m := *rp.Case.Sp
 			m.Outs = nil
@@ -581,6 +627,11 @@ func replay(o Opts) {
 		}
 		if rp.Hunt.Mat != nil {
 			if h := matOracle(rp.Hunt.Mat); h != nil {
+				still, fail = true, h.Failure
+			}
+		}
+		if rp.Hunt.VP != nil {
+			if h := vpOracle(rp.Hunt.VP); h != nil {
 				still, fail = true, h.Failure
 			}
 		}
